@@ -9,7 +9,8 @@ import WtfModel.Proofs.ExampleScore
   gate (`Filters.passes`, the model of `passesFilters`, validated against the real function by the
   `passes` op of the `search` correspondence domain and exhaustively over the tag pool × switches) is
   exactly that clause plus the pipeline clause.  `platform` / `pipeline` then hold for *every* exit of
-  `search` (the model of `SearchUniversal`): lexical, NLP, typo fallback, empty — for all databases, queries,
+  `search` (the model of `SearchUniversal`): lexical, NLP, typo fallback, empty — and `cli_recovery` for the
+  CLI's filtered recovery answer, `legacy_pipeline` for the legacy pipeline search — for all databases, queries,
   options and all values of the parameters (`Tuning`: idf, NLP analysis, TF-IDF ranking, fuzzy sort order,
   Unicode tables, host platform); no hypothesis.  The tables `Gen.Platform.variants` /
   `crossPlatformTools` are regenerated from the source on every run; the `table_*` facts pin their meaning.
